@@ -5,7 +5,7 @@ PROP = dict(
     lean_module="AbraProofs.Properties.C16",
     required_theorems=["C16_fcmp_relations", "C16_key_injective", "C16_key_bits", "C16_fcmp_total_order",
                        "C16_fcmp_consistent", "C16_fcmp_is_ieee_total_order", "C16_isZero_iff", "C16_div_zero_check",
-                       "C16_no_other_error", "C16_const_consistent", "C16_chain_left_to_right", "C16_chain_two", "C16_viaString", "C16_int_from_float_spec",
+                       "C16_no_other_error", "C16_const_consistent", "C16_chain_left_to_right", "C16_chain_two", "C16_roundInt_spec", "C16_round_spec", "C16_math_exact_ones", "C16_viaString", "C16_int_from_float_spec",
                        "C16_int_from_float_range", "C16_float_from_int_spec"],
     harness_bin="c16",
     mismatch_is_violation=True,
@@ -35,6 +35,7 @@ PROP = dict(
     ],
     assumptions=[
         "NaN payloads other than the hardware's default NaN cannot be produced by an Abra program and are covered by the theorems only",
+        "sqrt/sin/cos/tan/asin/acos/atan/log/log2/log10/atan2 are outside the model's language (libm: a parameter); they are executed and compared with the host's f64 functions by the Rust-side oracle only",
         "models the repaired behaviour of D32 (a NaN result is not folded) and D33 (unary minus subtracts from -0.0)",
     ],
     design_ref="DESIGN.md §6 C16",
